@@ -1,4 +1,8 @@
 // (types are declared in opaque_raw_dual_types.rs)
+// In THIS unit RawConnector / DualConnector are opaque and their trait methods carry the trait contract.
+// Those contracts are discharged elsewhere: num_left / num_right / cost of both connectors are PROVED in unit `scorer`
+// against the concrete models (contracts/prelude/raw_specs.rs, dual_specs.rs); map_connection_ids of both has only the
+// BOUNDED Kani stand-ins kani/raw_map.rs and kani/dual_map.rs.
 pub uninterp spec fn raw_wf(c: RawConnector) -> bool;
 pub uninterp spec fn raw_num_left(c: RawConnector) -> int;
 pub uninterp spec fn raw_num_right(c: RawConnector) -> int;
